@@ -837,6 +837,18 @@ def call_builtin(ex, name, args, kwargs):
                 if ex.branch(klt(y.t, x.t)):
                     return VTuple([y, x])
                 return VTuple([x, y])
+            if _setlike(a0) and not isinstance(a0, VSeq):
+                st = ex.as_set(a0)
+                if st.arity == 1:
+                    # sorting a set of variables by (name, subscripts): some strict total order on variables (unspecified)
+                    klt = z3.Function("variable_sort_key_lt", L.Node, L.Node, L.B)
+                    L.add_axioms({"variable_sort_key_lt"}, [L.forall(1, lambda a: L.Not(klt(a, a))),
+                                                            L.forall(2, lambda a, b: L.Not(L.And(klt(a, b), klt(b, a)))),
+                                                            L.forall(3, lambda a, b, c: L.Implies(L.And(klt(a, b), klt(b, c)), klt(a, c))),
+                                                            L.forall(2, lambda a, b: L.Or(a == b, klt(a, b), klt(b, a)))])
+                    ex.assumption_notes.add("sorted(key=_variable_sort_key) of a set of variables: an unspecified strict total order "
+                                            "(distinct variables have distinct (name, subscripts) keys)")
+                    return VSeq(lambda x: st.has(x), lambda a, b: klt(a, b))
             raise OutOfSubset("sorted by _variable_sort_key of a symbolic collection")
         if key is not None:
             if not (isinstance(key, VFunc) and key.kind == "builtin" and key.target == "str"):
@@ -1191,11 +1203,12 @@ def call_method(ex, obj, name, args, kwargs):
         raise OutOfSubset(f"sequence method {name}")
     if isinstance(obj, VNode) and name == "intervene" and len(args) == 1:
         # Variable.intervene(S) on a plain variable with a set of Intervention objects (CounterfactualVariable's constructor
-        # rejects an empty set with ValueError and non-Intervention members with TypeError; plain members would be converted)
+        # rejects an empty set with ValueError).  Members that are not Intervention objects are *converted* by the real code
+        # (Intervention(name, star=False)); that conversion is outside the model: the side condition below is a model limit
         at = L.intervene_axioms()
         S = ex.as_set(args[0])
         ex.require(L.And(L.Not(L.is_cf(obj.t)), L.Not(L.is_intervention(obj.t))), "ModelLimit", "model.intervene.receiver")
-        ex.require(L.forall(1, lambda i: L.Implies(S.has(i), L.is_intervention(i))), "TypeError", "intervene.members")
+        ex.require(L.forall(1, lambda i: L.Implies(S.has(i), L.is_intervention(i))), "ModelLimit", "model.intervene.members")
         ex.require(L.exists(1, lambda i: S.has(i)), "ValueError", "intervene.empty")
         from . import exprs
         T = exprs.theory(ex)
